@@ -508,7 +508,7 @@ impl Worker {
         }
 
         let bytes_since_sync = writer_set.bytes_since_sync;
-        let res = writer_set.handle_write(WriteOperation {
+        let mut operation = WriteOperation {
             partition_key,
             partition_id,
             transaction_id,
@@ -517,12 +517,39 @@ impl Worker {
             expected_partition_sequence,
             unique_streams: latest_stream_versions.len(),
             confirmation_count: batch.confirmation_count,
-        });
+        };
+        let mut res = writer_set.write_operation(&mut operation);
         if res.is_err()
             && let Err(err) = writer_set.writer.set_len(write_offset)
         {
             writer_set.bytes_since_sync = bytes_since_sync;
             error!("failed to set segment file length after write error: {err}");
+        }
+
+        // The size estimate above counts uncompressed bytes, but an incompressible record is
+        // stored larger than that (length prefix + zstd frame overhead): the segment can turn
+        // out to be full although the estimate said the transaction fits, and a retry would
+        // take the same decision again. Write it to a new segment instead (once; when the
+        // segment is still empty a new one cannot help).
+        if matches!(
+            res,
+            Err(WriteError::Writer(seglog::write::WriteError::SegmentFull { .. }))
+        ) && write_offset > SEGMENT_HEADER_SIZE as u64
+        {
+            match writer_set.rollover() {
+                Ok(()) => {
+                    write_offset = writer_set.writer.write_offset();
+                    let bytes_since_sync = writer_set.bytes_since_sync;
+                    res = writer_set.write_operation(&mut operation);
+                    if res.is_err()
+                        && let Err(err) = writer_set.writer.set_len(write_offset)
+                    {
+                        writer_set.bytes_since_sync = bytes_since_sync;
+                        error!("failed to set segment file length after write error: {err}");
+                    }
+                }
+                Err(err) => res = Err(err),
+            }
         }
 
         writer_set
@@ -597,7 +624,13 @@ struct WriterSet {
 }
 
 impl WriterSet {
-    fn handle_write(&mut self, req: WriteOperation) -> Result<AppendResult, WriteError> {
+    fn handle_write(&mut self, mut req: WriteOperation) -> Result<AppendResult, WriteError> {
+        self.write_operation(&mut req)
+    }
+
+    /// Writes the operation's events (and commit). The operation stays intact, so that it can
+    /// be written again to a new segment when this one turned out to be full.
+    fn write_operation(&mut self, req: &mut WriteOperation) -> Result<AppendResult, WriteError> {
         if req.events.is_empty() {
             unreachable!("append event batch does not allow empty transactions");
         }
@@ -616,7 +649,7 @@ impl WriterSet {
 
         let event_count = req.events.len();
         debug_assert_eq!(req.events.len(), req.event_versions.len());
-        for (event, stream_version) in req.events.into_iter().zip(req.event_versions) {
+        for (event, stream_version) in req.events.iter_mut().zip(req.event_versions.iter()) {
             let partition_sequence = next_partition_sequence;
             let stream_version = stream_version.next();
             stream_versions.insert(event.stream_id.clone(), stream_version);
@@ -627,12 +660,17 @@ impl WriterSet {
                 partition_id: req.partition_id,
                 partition_sequence,
                 stream_version,
-                stream_id: event.stream_id,
-                event_name: ShortString(event.event_name),
-                metadata: LongBytes(event.metadata),
-                payload: LongBytes(event.payload),
+                stream_id: event.stream_id.clone(),
+                event_name: ShortString(mem::take(&mut event.event_name)),
+                metadata: LongBytes(mem::take(&mut event.metadata)),
+                payload: LongBytes(mem::take(&mut event.payload)),
             };
-            let (offset, len) = self.writer.append_event(req.confirmation_count, &append)?;
+            let appended = self.writer.append_event(req.confirmation_count, &append);
+            // Hand the buffers back to the operation (see `write_operation`)
+            event.event_name = append.event_name.0;
+            event.metadata = append.metadata.0;
+            event.payload = append.payload.0;
+            let (offset, len) = appended?;
             offsets.push(offset);
             self.bytes_since_sync += len;
             // We need to guarantee:
